@@ -13,8 +13,10 @@ import (
 	"database/sql"
 	"errors"
 	"fmt"
+	"reflect"
 	"strings"
 	"sync/atomic"
+	"time"
 
 	"gorm.io/driver/sqlite"
 	"gorm.io/gorm"
@@ -92,7 +94,8 @@ func (in PlumbIn) reference() PlumbIn {
 // runPlumbOnce executes one program on a fresh pair of handles.
 func (e *env) runPlumbOnce(in PlumbIn, reuse *[]string) PlumbRun {
 	var o PlumbRun
-	sqlDB, rec := recdrv.Open(e.dsn)
+	// a short busy timeout: a statement that lands outside its transaction must fail fast, not stall
+	sqlDB, rec := recdrv.Open(strings.Replace(e.dsn, "_busy_timeout=5000", "_busy_timeout=200", 1))
 	defer sqlDB.Close()
 	db, err := gorm.Open(sqlite.Dialector{Conn: sqlDB}, &gorm.Config{Logger: logger.Discard, PrepareStmt: in.Base == "prepared"})
 	lib.Must(err)
@@ -117,12 +120,34 @@ func (e *env) runPlumbOnce(in PlumbIn, reuse *[]string) PlumbRun {
 			}
 		}
 	}
-	finish := func(tx *gorm.DB) {
+	// the transaction object behind a handle, taken when the transaction starts: after the program's
+	// own Commit/Rollback it must be finished; if it is not, that is an observation (and it is
+	// rolled back here so that it cannot block the programs that follow)
+	rawTx := func(h *gorm.DB) interface{ Rollback() error } {
+		switch t := h.Statement.ConnPool.(type) {
+		case *sql.Tx:
+			if t != nil {
+				return t
+			}
+		case *gorm.PreparedStmtTX:
+			if t != nil && t.Tx != nil && !reflect.ValueOf(t.Tx).IsNil() {
+				return t.Tx
+			}
+		}
+		return nil
+	}
+	mustBeFinished := func(raw interface{ Rollback() error }) {
+		if raw != nil && raw.Rollback() == nil {
+			fail("transaction", errors.New("left open after its Commit/Rollback"))
+		}
+	}
+	finish := func(tx *gorm.DB, raw interface{ Rollback() error }) {
 		if in.Finish == "commit" {
 			fail("commit", tx.Commit().Error)
 		} else {
 			fail("rollback", tx.Rollback().Error)
 		}
+		mustBeFinished(raw)
 	}
 	var walk func(h *gorm.DB, steps []string, inTx bool)
 	walk = func(h *gorm.DB, steps []string, inTx bool) {
@@ -159,13 +184,18 @@ func (e *env) runPlumbOnce(in PlumbIn, reuse *[]string) PlumbRun {
 				return nil
 			}
 			called := false
+			var raw interface{ Rollback() error }
 			err := h.Transaction(func(tx *gorm.DB) error {
 				called = true
 				rec.Fault = nil
+				if !inTx {
+					raw = rawTx(tx)
+				}
 				walk(tx, rest, true)
 				return nil
 			})
 			rec.Fault = nil
+			mustBeFinished(raw)
 			if !inTx && (err == nil || called) {
 				fail("transaction", fmt.Errorf("BEGIN failed but the block ran (%v, %v)", called, err))
 			}
@@ -190,20 +220,26 @@ func (e *env) runPlumbOnce(in PlumbIn, reuse *[]string) PlumbRun {
 				tx = h.Begin()
 			}
 			fail("begin", tx.Error)
+			raw := rawTx(tx)
 			walk(tx, rest, true)
-			finish(tx)
+			finish(tx, raw)
 		case "block", "blockok":
 			ret := errRollback
 			if steps[0] == "blockok" {
 				ret = nil
 			}
+			var raw interface{ Rollback() error }
 			err := h.Transaction(func(tx *gorm.DB) error {
+				if !inTx {
+					raw = rawTx(tx)
+				}
 				walk(tx, rest, true)
 				return ret
 			})
 			if !errors.Is(err, ret) {
 				fail("transaction", fmt.Errorf("unexpected result %v", err))
 			}
+			mustBeFinished(raw)
 		case "conn":
 			fail("connection", h.Connection(func(tx *gorm.DB) error {
 				walk(tx, rest, false)
@@ -236,10 +272,33 @@ func (e *env) runPlumbOnce(in PlumbIn, reuse *[]string) PlumbRun {
 	return o
 }
 
+// watchdog: a program that does not finish is a failing observation, not a stalled run
+func (e *env) runPlumbGuarded(in PlumbIn, reuse *[]string) PlumbRun {
+	done := make(chan PlumbRun, 1)
+	var mine []string
+	go func() {
+		defer func() {
+			if p := recover(); p != nil {
+				done <- PlumbRun{Errs: []string{fmt.Sprint("panic: ", p)}}
+			}
+		}()
+		done <- e.runPlumbOnce(in, &mine)
+	}()
+	select {
+	case r := <-done:
+		if reuse != nil {
+			*reuse = mine
+		}
+		return r
+	case <-time.After(8 * time.Second):
+		return PlumbRun{Errs: []string{"watchdog: the program did not finish within 8 s"}}
+	}
+}
+
 func (e *env) runPlumb(in PlumbIn) PlumbObs {
 	var o PlumbObs
-	o.PlumbRun = e.runPlumbOnce(in, &o.ReuseErrs)
-	o.Ref = e.runPlumbOnce(in.reference(), nil)
+	o.PlumbRun = e.runPlumbGuarded(in, &o.ReuseErrs)
+	o.Ref = e.runPlumbGuarded(in.reference(), nil)
 	if o.Ref.DBOk && !o.DBOk {
 		o.Errs = append(o.Errs, "DB(): the handle knows its *sql.DB without the cache but not with it")
 	}
